@@ -492,8 +492,15 @@ def octants(repo, col):
                                     buf, k, h))
         key = tuple(sign)
         patterns.setdefault(key, []).append(st)
+        helper_guard = any(isinstance(x, ast.Call) and
+                           (call_name(x) or "") in fn.module.functions or
+                           isinstance(x, ast.Call) and any(
+                               q.endswith("." + (call_name(x) or "?"))
+                               for q in fn.module.functions)
+                           for g in guards for x in ast.walk(g))
         col.add(rule, fn, "octant %s" % "/".join(sign), ok,
-                "" if ok else "; ".join(why), node=st)
+                "" if ok else "; ".join(why), node=st,
+                undecided=not ok and helper_guard)
     want = {(a, b, c) for a in ("lo", "hi") for b in ("lo", "hi")
             for c in ("lo", "hi")}
     missing = want - set(patterns)
